@@ -185,7 +185,7 @@ def _valid(g_new, measure, convex, out, what, **detail):
             ok = False
     for nm, defect, scale, where in res:
         if not defect <= TOL * scale:
-            out.violate(f"{what}: produced grid violates {nm}", defect=defect, scale=scale, where=where, **detail)
+            out.violate(f"{what}: produced grid violates {nm}", defect=defect, length_scale=scale, where=where, **detail)
             ok = False
     return ok
 
